@@ -26,7 +26,9 @@ EXPLANATION = (
     "formula and the salt||block order agree; (5) the tail segment is selected by the same predicate on both sides "
     "and the decoded segment is trimmed to the tail data size for the last segment and to S otherwise before "
     "decryption and delivery; (6) the in-place update takes S, D and the SDMF salt from the same verinfo positions "
-    "and computes the start segment with the same formula as Publish. "
+    "and computes the start segment with the same formula as Publish; (7) Publish.update lays the patched file out "
+    "for the data length of the version whose shares it patches (the verinfo it is given), not for a cached node "
+    "size. "
     "Undecided: offset/length stitching of TransformingUploadable.read, Retrieve._set_segment head/tail trimming, "
     "block-hash-tree patching in Publish.update, zfec and AES algebra, server response ordering.")
 TECHNIQUE = ("static analysis: polynomial normal forms of the size/offset formulas compared across writer and reader, "
@@ -1103,7 +1105,8 @@ def run(ctx: Context):
         ps = first_positional_params(pu)          # data, offset, blockhashes, version
         if len(ps) < 4:
             raise AnchorVanished("Publish.update(data, offset, blockhashes, version) signature changed")
-        T7 = [("%s[%d]" % (ps[3], pos["D"]), "D"), ("%s.get_size()" % ps[0], "NEW")]
+        T7 = [("%s[%d]" % (ps[3], pos["D"]), "D"), ("self._servermap.size_of_version(%s)" % ps[3], "D"),
+              ("%s.get_size()" % ps[0], "NEW")]
         allowed = {"D", "NEW", norm_src("max(D, NEW)")}
         for (n, form, fin) in _attr_forms(pu, pun, "self.datalength", T7):
             r.site(pu, n.ast, "patched length")
